@@ -38,9 +38,14 @@ var c03Truthy = []TV{
 	{K: "map"}, {K: "map", M: map[string]TV{"a": tvI(0)}}, {K: "[]int"}, {K: "time", I: 0}, {K: "struct{}"}, {K: "map[string]string"},
 	// non-nil pointers are truthy whatever they point to ("everything else truthy")
 	{K: "*bool", B: true}, {K: "*int"}, {K: "*int", I: 4}, {K: "*string"}, {K: "*string", S: "s"}, {K: "**int"},
+	// named types over the basic kinds, non-zero
+	{K: "NamedBool", B: true}, {K: "NamedInt", I: 2}, {K: "NamedInt8", I: -3}, {K: "NamedUint8", U: 9}, {K: "NamedUint64", U: 1 << 63}, {K: "NamedFloat", F: 0.5}, {K: "NamedString", S: "ns"},
+	{K: "FileMode", U: 0o755}, {K: "Duration", I: 1500}, {K: "Month", I: 3},
 }
 
-var c03Undecided = []TV{{K: "nil*Item"}, {K: "nilslice"}, {K: "nilmap"}}
+var c03Undecided = []TV{{K: "nil*Item"}, {K: "nilslice"}, {K: "nilmap"},
+	// zero values of named types: the documented table lists Go's built-in types only
+	{K: "NamedBool"}, {K: "NamedInt"}, {K: "NamedUint8"}, {K: "NamedFloat"}, {K: "NamedString"}, {K: "FileMode"}}
 
 // values used by the uniform part only: the string "false" is truthy by the
 // stated rule but falsy in the engine (pinned by the repository's own unit test,
@@ -57,7 +62,7 @@ func init() {
 		Exhaustive: func(ctx core.Ctx) bool { return true },
 		Assumptions: []string{
 			"golang.org/x/net/html re-parse of the output is the trusted observer",
-			"typed nil pointers / nil slices / nil maps are reported in the evidence but not judged (the documented table does not say whether a typed nil is 'nil')",
+			"typed nil pointers / nil slices / nil maps and zero values of named types (type T int, fs.FileMode, ...) are reported in the evidence but judged only for uniformity across positions, not for direction (the documented table does not say whether a typed nil is 'nil' or whether a named zero is a zero)",
 			"orphan v-else / v-else-if (no preceding v-if) and non-whitespace text between chain members are outside the statement and not generated",
 		},
 	})
@@ -508,6 +513,22 @@ func (p *c03) execUniform(c c03Case) core.Obs {
 	if !decided {
 		o.Cell("undecided/" + v.K)
 		o.Count("undecided_values_observed", 1)
+		// direction is not judged, agreement between the positions is: the
+		// same value has the same truthiness wherever it is read
+		ref, refPos := false, ""
+		for _, pos := range sortedKeys(obs) {
+			if strings.HasPrefix(pos, "!") {
+				continue
+			}
+			if refPos == "" {
+				ref, refPos = obs[pos], pos
+				continue
+			}
+			o.Cell("uniform-undecided/" + pos)
+			if obs[pos] != ref {
+				o.Fail(c, fmt.Sprintf("uniform/%s-vs-%s/%s", refPos, pos, cls), "value %s read as %s is truthy=%v in %s but truthy=%v in %s\ntemplate: %s\noutput: %s", v, c.Path, ref, refPos, obs[pos], pos, tpl, out)
+			}
+		}
 		return o
 	}
 	for _, pos := range sortedKeys(obs) {
